@@ -205,7 +205,7 @@ FAKE_BIN = os.path.join(os.path.dirname(os.path.abspath(__file__)), "fakebin")
 class FaultEnv:
     """Crash-type faults on the file/subprocess seam of utils.format_cpp / format_python."""
 
-    KINDS = ["clang_absent", "clang_exit1", "clang_killed", "tmpdir_unwritable", "black_unimportable"]
+    KINDS = ["clang_absent", "clang_exit1", "clang_killed", "clang_noisy", "tmpdir_unwritable", "black_unimportable"]
 
     def __init__(self):
         self.saved_path = os.environ.get("PATH", "")
@@ -223,6 +223,16 @@ class FaultEnv:
         elif kind in ("clang_exit1", "clang_killed"):
             os.environ["FAKE_CLANG_FORMAT"] = kind
             os.environ["PATH"] = os.path.join(FAKE_BIN, "clang") + ":/usr/bin:/bin"
+        elif kind == "clang_noisy":
+            # not a crash: the formatter works, but writes a warning to stderr first
+            import shutil
+
+            real = shutil.which("clang-format", path=self.saved_path)
+            if real is None:
+                self.active = None
+                return
+            os.environ["REAL_CLANG_FORMAT"] = real
+            os.environ["PATH"] = os.path.join(FAKE_BIN, "noisy") + ":" + self.saved_path
         elif kind == "tmpdir_unwritable":
             os.environ["TMPDIR"] = "/proc/nonexistent-dir-for-verif"
             tempfile.tempdir = "/proc/nonexistent-dir-for-verif"
@@ -237,6 +247,7 @@ class FaultEnv:
 
         os.environ["PATH"] = self.saved_path
         os.environ.pop("FAKE_CLANG_FORMAT", None)
+        os.environ.pop("REAL_CLANG_FORMAT", None)
         if self.saved_tmp is None:
             os.environ.pop("TMPDIR", None)
         else:
